@@ -1091,32 +1091,70 @@ fn main_random(args: &[String]) {
             let ops: &[&str] = match mode.as_str() {
                 "part" => &["partition", "partition_oneway", "repair", "repair_oneway"],
                 "hold" => &["hold", "release", "hold", "release", "repair"],
+                // a release of links that were never held: nothing in flight may be affected
+                "lat" => &["release"],
                 _ => &[],
             };
             for _s in 0..steps {
-                // controller actions between steps
-                if !ops.is_empty() && rng.random_bool(0.45) {
-                    let a = rng.random_range(1..=n);
-                    let mut b = rng.random_range(1..=n);
-                    if b == a {
-                        b = a % n + 1;
-                    }
-                    let op = ops[rng.random_range(0..ops.len())];
-                    if n >= 3 && rng.random_bool(0.3) {
-                        // host sets by regex: two random non-empty subsets (sorted = registration order)
-                        let pick = |rng: &mut SmallRng| -> Vec<usize> {
-                            let mut v: Vec<usize> = (1..=n).filter(|_| rng.random_bool(0.5)).collect();
-                            if v.is_empty() {
-                                v.push(rng.random_range(1..=n));
+                // controller actions between steps; manual deliveries come before or after the
+                // control call (a release right after a manual delivery, or the other way round)
+                let manual_first = rng.random_bool(0.5);
+                let mut last_manual: Option<(usize, usize)> = None;
+                for phase in 0..2 {
+                    if (phase == 0) != manual_first {
+                        if !ops.is_empty() && rng.random_bool(0.45) {
+                            let a = rng.random_range(1..=n);
+                            let mut b = rng.random_range(1..=n);
+                            if b == a {
+                                b = a % n + 1;
                             }
-                            v
-                        };
-                        let (sa, sb) = (pick(&mut rng), pick(&mut rng));
-                        run.ctl_sets(op, &sa, &sb);
+                            let mut op = ops[rng.random_range(0..ops.len())];
+                            let mut sets = n >= 3 && rng.random_bool(0.3);
+                            let (mut a, mut b) = (a, b);
+                            if let Some((x, y)) = last_manual {
+                                // often: a release of the very link a message was just hand-delivered on
+                                if rng.random_bool(0.5) {
+                                    (op, a, b, sets) = ("release", x, y, false);
+                                }
+                            }
+                            if sets {
+                                // host sets by regex: two random non-empty subsets (sorted = registration order)
+                                let pick = |rng: &mut SmallRng| -> Vec<usize> {
+                                    let mut v: Vec<usize> = (1..=n).filter(|_| rng.random_bool(0.5)).collect();
+                                    if v.is_empty() {
+                                        v.push(rng.random_range(1..=n));
+                                    }
+                                    v
+                                };
+                                let (sa, sb) = (pick(&mut rng), pick(&mut rng));
+                                run.ctl_sets(op, &sa, &sb);
+                            } else {
+                                run.ctl(op, a, b);
+                            }
+                            nctl += 1;
+                        }
                     } else {
-                        run.ctl(op, a, b);
+                        if mode == "hold" && rng.random_bool(0.1) {
+                            // LinkIter::deliver_all on a random link
+                            let a = rng.random_range(1..=n);
+                            run.manual_all(a, a % n + 1);
+                            nctl += 1;
+                        }
+                        if mode == "hold" && rng.random_bool(0.3) {
+                            // manual delivery of a random in-flight message
+                            let l = run.links();
+                            let cands: Vec<(usize, usize, usize)> = l
+                                .iter()
+                                .flat_map(|(a, b, ids)| (1..=ids.len()).map(move |k| (*a, *b, k)))
+                                .collect();
+                            if !cands.is_empty() {
+                                let (a, b, k) = cands[rng.random_range(0..cands.len())];
+                                run.manual(a, b, k);
+                                last_manual = Some((a, b));
+                                nctl += 1;
+                            }
+                        }
                     }
-                    nctl += 1;
                 }
                 if runtime_fail && rng.random_bool(0.2) {
                     // fail rates changed while the run is in progress, globally or for one link
@@ -1126,25 +1164,6 @@ fn main_random(args: &[String]) {
                         run.set_fail(Some((a, a % n + 1)), rate);
                     } else {
                         run.set_fail(None, rate);
-                    }
-                }
-                if mode == "hold" && rng.random_bool(0.1) {
-                    // LinkIter::deliver_all on a random link
-                    let a = rng.random_range(1..=n);
-                    run.manual_all(a, a % n + 1);
-                    nctl += 1;
-                }
-                if mode == "hold" && rng.random_bool(0.3) {
-                    // manual delivery of a random in-flight message
-                    let l = run.links();
-                    let cands: Vec<(usize, usize, usize)> = l
-                        .iter()
-                        .flat_map(|(a, b, ids)| (1..=ids.len()).map(move |k| (*a, *b, k)))
-                        .collect();
-                    if !cands.is_empty() {
-                        let (a, b, k) = cands[rng.random_range(0..cands.len())];
-                        run.manual(a, b, k);
-                        nctl += 1;
                     }
                 }
                 if mode == "lat" && n >= 3 && rng.random_bool(0.12) {
